@@ -178,6 +178,9 @@ def contains(interp, container, item, text=''):
 
 
 def rich_compare(interp, name, a, b, text='', pure=False):
+    # abstract date-time records (component-wise objects used by the calendar rules): compared through their symbol
+    if isinstance(a, Obj) and isinstance(b, Obj) and '<sym>' in a.attrs and '<sym>' in b.attrs:
+        return rich_compare(interp, name, a.attrs['<sym>'], b.attrs['<sym>'], text, pure)
     # dunder dispatch on package objects
     if isinstance(a, Obj):
         m = interp.get_method(a, CMP_DUNDER[name])
@@ -319,15 +322,22 @@ def aff_arith(interp, name, a, b):
                 return Aff(_lin(y.coeffs, x.const, {}, 0), y.const * x.const, kind)
             if y.is_const():
                 return Aff(_lin(x.coeffs, y.const, {}, 0), x.const * y.const, kind)
-            raise Unmodelled('product of two non-constant linear forms')
+            return None
         raise Raised(Exc('TypeError', 'unsupported operand kinds %s %s' % kinds))
     if name == 'truediv':
         if kinds[1] == 'num' and y.is_const() and kinds[0] in ('num', 'td'):
             if y.const == 0:
                 raise Raised(Exc('ZeroDivisionError'))
             return Aff(_lin(x.coeffs, 1 / y.const, {}, 0), x.const / y.const, 'num' if kinds[0] == 'num' else 'td')
-        raise Unmodelled('division by a non-constant linear form')
-    raise Unmodelled('operator %s on linear forms' % name)
+        return None
+    if name in ('floordiv', 'mod') and y.is_const() and kinds == ('num', 'num') and y.const > 0 and y.const.denominator == 1 and \
+            all((cf / y.const).denominator == 1 for cf in x.coeffs.values()) and x.const.denominator == 1 and both_int:
+        kq = int(y.const)
+        r0 = int(x.const)
+        if name == 'floordiv':
+            return Aff(dict((v, cf / kq) for v, cf in x.coeffs.items()), r0 // kq, 'int')
+        return Aff({}, r0 % kq, 'int')
+    return None     # not expressible as a linear form: the caller falls back to an uninterpreted atom
 
 
 def aff_compare(interp, name, a, b, text):
@@ -347,10 +357,19 @@ def aff_compare(interp, name, a, b, text):
     return Const(interp.decide('%r' % (sub,), [True, False], sub))
 
 
+def _aff_norm(r):
+    if isinstance(r, Aff) and not r.coeffs and r.kind in ('int', 'num'):
+        if r.kind == 'int' and r.const.denominator == 1:
+            return Const(int(r.const))
+        if r.kind == 'num':
+            return Const(int(r.const) if r.const.denominator == 1 else float(r.const))
+    return r
+
+
 def arith(interp, name, a, b):
     r = aff_arith(interp, name, a, b)
     if r is not None:
-        return r
+        return _aff_norm(r)
     # dunder dispatch on package objects (forward, then reflected)
     if name in BIN_DUNDER:
         fwd, ref = BIN_DUNDER[name]
@@ -702,7 +721,7 @@ def call_type(interp, name, args, kwargs):
             tot = Aff(_lin(tot.coeffs, 1, a.coeffs, scale[kk]), tot.const + a.const * scale[kk], 'td')
         return tot
     if name == 'datetime.datetime':
-        if all(a.tag in NUMERIC for a in args):
+        if all(a.tag in NUMERIC or a.tag is None for a in args):
             # constructor validates ranges
             if interp.decide('datetime(%s) is a valid date' % ', '.join(repr(a) for a in args), [True, False]):
                 return Atom('datetime', args, 'datetime')
